@@ -209,6 +209,71 @@ def fromLocal (ops : StrOps α) (acs : List (Conv α)) (ava : List (α × LVals 
 
 /-! ### receipt -/
 
+/-! ### the text of a received AttributeValue (`saml.AttributeValueBase.harvest_element_tree` / `set_text`) -/
+
+/-- What `set_text` does with the text of a value whose xsi:type has a given local name. -/
+inductive ConvKind where
+  | preserve     -- string, anyURI, base64Binary, dateTime, anyType, every unknown / foreign type: the text as it is
+  | int          -- integer, short, int, long:  str(int(text))
+  | float        -- float, double:              str(float(text))
+  | bool         -- boolean:                    {"true", "false"}[text.lower()]
+  | date         -- date:                       str(strptime(text, "%Y-%m-%d").date())
+deriving Repr, DecidableEq
+
+/-- Reading an xsi:type value: `typeLocal` = the part after the first colon (the whole string without
+    one — the PREFIX IS IGNORED by the code), `kind` = the conversion for that local name. -/
+structure TypeOps (α : Type) where
+  typeLocal : α → α
+  kind : α → ConvKind
+
+/-- Python's `int` / `float` / `strptime` applied to the text (`none`: they refuse it) — supplied per
+    value by the harness, an external call. -/
+structure Oracle (α : Type) where
+  int : Option α := none
+  float : Option α := none
+  bool : Option α := none
+  date : Option α := none
+deriving Repr, DecidableEq
+
+/-- The `.text` of a parsed AttributeValue element with character content `raw` and xsi:type `xsiType`.
+    `raised`: "Type and value do not match" — parsing the message fails. -/
+def parsedText (ops : StrOps α) (tops : TypeOps α) (xsiType raw : Option α) (o : Oracle α) : Res (Option α) :=
+  match raw.filter ops.truthy with
+  | none => .ok raw                                   -- `if text:` — set_text is not called
+  | some r =>
+    match xsiType.filter ops.truthy with
+    | none => .ok (some r)                            -- untyped (or type=""): a string
+    | some t =>
+      let l := tops.typeLocal t
+      if !ops.truthy l then .ok (some ops.empty)      -- "p:" selects the table entry "" : the text becomes ""
+      else
+        let conv : Option α → Res (Option α) := fun c => match c with
+          | some x => .ok (some x)
+          | none => .raised
+        match tops.kind l with
+        | .preserve => .ok (some r)
+        | .int => conv o.int
+        | .float => conv o.float
+        | .bool => conv o.bool
+        | .date => conv o.date
+
+/-- An AttributeValue element as a peer writes it. -/
+structure TypedValue (α : Type) where
+  xsiType : Option α := none
+  raw : Option α := none
+  oracle : Oracle α := {}
+  ext : List (NameIdExt α) := []
+deriving Repr, DecidableEq
+
+def parseValues (ops : StrOps α) (tops : TypeOps α) : List (TypedValue α) → Res (List (WireValue α))
+  | [] => .ok []
+  | v :: t =>
+    match parsedText ops tops v.xsiType v.raw v.oracle with
+    | .raised => .raised
+    | .ok tx => match parseValues ops tops t with
+      | .raised => .raised
+      | .ok r => .ok ({ text := tx, ext := v.ext } :: r)
+
 /-- What parsing does to an attribute that went over the wire as XML
     (`AttributeType_.harvest_element_tree`): a missing NameFormat reads as `unspecified`. -/
 def parsed (ops : StrOps α) (a : WireAttr α) : WireAttr α :=
